@@ -1039,10 +1039,19 @@ class PseudoNetCDFFile(PseudoNetCDFSelfReg, object):
                 if isinstance(node, ast.AugAssign):
                     targets = [node.target]
                 elif isinstance(node, ast.Assign):
-                    targets = [t for t in node.targets
-                               if not isinstance(t, ast.Name)]
+                    targets = list(node.targets)
                 else:
                     continue
+                # 'A[0], B[0] = 1, 2': the members of a tuple or list target
+                while any(isinstance(t, (ast.Tuple, ast.List, ast.Starred))
+                          for t in targets):
+                    targets = [e for t in targets for e in (
+                        t.elts if isinstance(t, (ast.Tuple, ast.List)) else
+                        [t.value] if isinstance(t, ast.Starred) else [t])]
+                if isinstance(node, ast.Assign):
+                    # a plain name is bound, not written into
+                    targets = [t for t in targets
+                               if not isinstance(t, ast.Name)]
                 for target in targets:
                     while isinstance(target, (ast.Subscript, ast.Attribute)):
                         target = target.value
